@@ -11,7 +11,7 @@ import (
 )
 
 var repo = flag.String("repo", "/repo", "repository root")
-var allExtractors = []string{"wire", "classify", "sites", "boxconsts", "adapter", "blocking"}
+var allExtractors = []string{"wire", "classify", "sites", "boxconsts", "adapter", "blocking", "net"}
 
 var outDir = flag.String("out", "/verif/lean/TSSVerif/Gen", "output directory for generated Lean files")
 
@@ -39,6 +39,8 @@ func main() {
 			name, body = "Adapter", genAdapter()
 		case "blocking":
 			name, body = "Blocking", genBlocking()
+		case "net":
+			name, body = "Net", genNet()
 		default:
 			fmt.Fprintf(os.Stderr, "unknown extractor %q\n", w)
 			os.Exit(2)
